@@ -6,6 +6,7 @@
 //  4 detach then join (F gated alive)  -> join fails
 //  5 two joiners on a gated-alive F    -> exactly one blocks and gets v, the other gets an error
 //  6 join after F finished (main yields first so F is usually already waiting for a joiner)
+//  7 two tryjoins / 8 a join and a tryjoin race on a FINISHED fiber from two kernel threads -> exactly one wins
 // (Two callers that may both still be running after the target was reclaimed are API misuse
 //  - pthreads calls it undefined - and are not in the alphabet.)
 // Oracle: returned value equality; success only after the ghost "function
@@ -32,6 +33,7 @@ void fmc_on_fiber_destroy(fiber_t* f) {
 }
 
 GHOST static void mark_returned(void) { g_returned = 1; }
+GHOST static int returned(void) { return g_returned; }
 GHOST static void join_result(int who, int ok, void* v, int final) {
   if (ok) {
     if (!g_returned) fmc_fail("join: %s by %d succeeded before the fiber's function returned", final ? "join" : "tryjoin", who);
@@ -72,6 +74,28 @@ static void* tryjoiner(void* p) {
     fiber_yield();
   }
   return (void*)2;
+}
+// sc=7/8: two joiners race on a FINISHED fiber. Each makes exactly one attempt and then
+// keeps its kernel thread busy (engine-level yield, no fiber switch) until both attempts
+// are over, so the target - woken by the winner onto the winner's run queue - cannot run and
+// be reclaimed while the other attempt is still in progress: no call is made on a dead handle.
+static int g_arrived, g_attempted, g_racer_tid[2];
+GHOST static void arrive(int id) { g_arrived++; g_racer_tid[id - 1] = fmc_tid(); }
+GHOST static int arrived(void) { return g_arrived; }
+GHOST static void attempted(void) { g_attempted++; }
+GHOST static int attempts(void) { return g_attempted; }
+static void* racer(void* p) {
+  int id = (int)(intptr_t)p;
+  int use_join = (sc == 8 && id == 1);
+  arrive(id);
+  while (arrived() < 2) fmc_yield();
+  void* v = 0;
+  join_begins();
+  int ok = (use_join ? fiber_join(F, &v) : fiber_tryjoin(F, &v)) == FIBER_SUCCESS;
+  join_result(id, ok, v, use_join);
+  attempted();
+  while (attempts() < 2) fmc_yield();
+  return (void*)(intptr_t)(ok ? 1 : 2);
 }
 static void* detacher(void* p) {
   mark_detached();
@@ -143,6 +167,21 @@ int harness_main(void) {
       int ok = fiber_join(F, &v) == FIBER_SUCCESS;
       join_result(0, ok, v, 1);
       if (!ok) fmc_fail("join: joining a finished fiber failed");
+      break;
+    }
+    case 7:
+    case 8: {
+      F = fiber_create(STK, f_body, 0);
+      for (int i = 0; i < 50 && !returned(); i++) fiber_yield();  // F runs to completion and waits for a joiner
+      if (!returned()) fmc_fail("join harness: target did not finish");
+      other[0] = fiber_create(STK, racer, (void*)1);
+      while (arrived() < 1) fmc_yield();  // racer 1 is now running on the OTHER kernel thread and stays there
+      other[1] = fiber_create(STK, racer, (void*)2);
+      void* r0 = jres(other[0]);
+      void* r1 = jres(other[1]);
+      if (g_racer_tid[0] == g_racer_tid[1]) fmc_fail("join harness: racers were not placed on different kernel threads");
+      if (r0 == (void*)1 && r1 == (void*)1) fmc_fail("join: two joiners both succeeded on one fiber");
+      if (r0 != (void*)1 && r1 != (void*)1) fmc_fail("join: neither of two joiners obtained the finished fiber's result");
       break;
     }
   }
